@@ -7,6 +7,7 @@ import Librfn.Lemmas.ConsoleEdit
 import Librfn.Lemmas.ConsoleRound
 import Librfn.Lemmas.ConsoleSplit
 import Librfn.Lemmas.ConsoleDeliver
+import Librfn.Lemmas.ConsoleSorted
 /-!
 # C15 — console line editing, tokenising and dispatch are exact and memory-safe
 
@@ -678,5 +679,155 @@ set_option maxRecDepth 100000 in
     line is handed to the tokeniser once -/
 example : let r := eval (registerAll initTable [⟨some [99], .script 0 0 false false⟩]) [99, 32, 97, 10, 99, 32, 98, 10, 99, 32, 99, 10, 99, 32, 100, 10, 99, 10] init
     r.2 = some 2 ∧ r.1.lines = [[99, 32, 97], [99, 32, 98], [99, 32, 99], [99, 32, 100], [99]] ∧ r.1.stuck = false := by decide
+
+/-! ## register_keeps_sorted, dispatch_first_registered: any names, duplicates, beyond capacity -/
+
+/-- a sequence of `console_register` calls: the final table and the commands that were accepted
+    (return value 0), in the order of the calls -/
+def registerLog : Table → List Cmd → Table × List Cmd
+  | tab, [] => (tab, [])
+  | tab, c :: rest =>
+    match register tab c with
+    | some (t, rc) => ((registerLog t rest).1, if rc = 0 then c :: (registerLog t rest).2 else (registerLog t rest).2)
+    | none => registerLog tab rest
+
+open Librfn.Lemmas.ConsoleSorted in
+theorem registerLog_inv (snt : Cmd) : ∀ (cmds : List Cmd) (tab : Table) (named : List Cmd),
+    TableOk tab named snt → SortedNames named → (∀ c ∈ cmds, c.name ≠ none) →
+    ∃ named', TableOk (registerLog tab cmds).1 named' snt ∧ SortedNames named' ∧
+      named'.Perm (named ++ (registerLog tab cmds).2) ∧
+      (∀ (a : List Byte) (dflt : Cmd), findSpec a dflt named' = findSpec a dflt (named ++ (registerLog tab cmds).2)) ∧
+      (registerLog tab cmds).2 = cmds.take (tableCap - 1 - named.length)
+  | [], tab, named, ht, hs, _ => ⟨named, ht, hs, by simp [registerLog], fun a d => by simp [registerLog], by simp [registerLog]⟩
+  | c :: rest, tab, named, ht, hs, hn => by
+    have hcn := hn c (List.mem_cons_self ..)
+    have hfits := ht.fits
+    cases hname : c.name with
+    | none => exact absurd hname hcn
+    | some nm =>
+      by_cases hroom : named.length + 1 < tableCap
+      · obtain ⟨hr, hok⟩ := register_room tab named snt c nm ht hroom hname
+        have hi := insIdx_le nm named
+        have hlen : (named.take (insIdx nm named) ++ c :: named.drop (insIdx nm named)).length = named.length + 1 := by
+          simp [List.length_take, List.length_drop]; omega
+        obtain ⟨named', i1, i2, i3, i4, i5⟩ := registerLog_inv snt rest _ _ hok
+          (insert_sorted named c nm snt ht.names hs hname).1 (fun x hx => hn x (List.mem_cons_of_mem _ hx))
+        have hlog : registerLog tab (c :: rest) =
+            ((registerLog (mkTable (named.take (insIdx nm named) ++ c :: named.drop (insIdx nm named)) snt) rest).1,
+              c :: (registerLog (mkTable (named.take (insIdx nm named) ++ c :: named.drop (insIdx nm named)) snt) rest).2) := by
+          simp only [registerLog, hr]
+          rfl
+        rw [hlog]
+        refine ⟨named', i1, i2, ?_, ?_, ?_⟩
+        · refine i3.trans ?_
+          have := (insert_sorted named c nm snt ht.names hs hname).2.1
+          refine (this.append_right _).trans ?_
+          simp
+        · intro a dflt
+          rw [i4 a dflt, findSpec_append, (insert_sorted named c nm _ ht.names hs hname).2.2 a, ← findSpec_append]
+          simp
+        · rw [i5, hlen]
+          have : tableCap - 1 - named.length = (tableCap - 1 - (named.length + 1)) + 1 := by omega
+          rw [this, List.take_succ_cons]
+      · have hfull : named.length + 1 = tableCap := by omega
+        have hr := register_full tab named snt c ht hfull
+        obtain ⟨named', i1, i2, i3, i4, i5⟩ := registerLog_inv snt rest tab named ht hs (fun x hx => hn x (List.mem_cons_of_mem _ hx))
+        have hlog : registerLog tab (c :: rest) = ((registerLog tab rest).1, (registerLog tab rest).2) := by
+          simp only [registerLog, hr]
+          rfl
+        rw [hlog]
+        refine ⟨named', i1, i2, i3, i4, ?_⟩
+        rw [i5]
+        have : tableCap - 1 - named.length = 0 := by omega
+        rw [this]; simp
+
+open Librfn.Lemmas.ConsoleSorted in
+/-- **register_keeps_sorted**: after *any* sequence of `console_register` calls from boot (any names,
+    duplicates allowed, more calls than the table has room for) the table is the array shape
+    `named ++ [sentinel] ++ NULLs` of 32 slots, its named entries are in non-decreasing `strcmp` order,
+    they are a permutation of `echo`, `help` and exactly the accepted commands, and the accepted
+    commands are exactly the first 29 of the calls (every later call returned −1, table untouched). -/
+theorem register_keeps_sorted (cmds : List Cmd) (hn : ∀ c ∈ cmds, c.name ≠ none) :
+    ∃ named, TableOk (registerLog initTable cmds).1 named cmdUnknown ∧ SortedNames named ∧
+      named.Perm ([cmdEcho, cmdHelp] ++ (registerLog initTable cmds).2) ∧
+      (registerLog initTable cmds).2 = cmds.take 29 ∧ (registerLog initTable cmds).1.length = tableCap := by
+  obtain ⟨named, h1, h2, h3, _, h5⟩ := registerLog_inv cmdUnknown cmds initTable [cmdEcho, cmdHelp] initTable_ok init_sorted hn
+  refine ⟨named, h1, h2, h3, h5, ?_⟩
+  rw [h1.shape]; exact mkTable_length _ _ h1.fits
+
+open Librfn.Lemmas.ConsoleSorted in
+/-- **dispatch_first_registered** (`dispatch_exact` without the distinct-names hypothesis): after any
+    sequence of registrations, `find_command` selects — for the string `a` at `argv[0]` — `echo` or
+    `help` for their names, otherwise the **first registered** of the accepted commands whose name is
+    exactly `a` (a later registration under the same name is in the table but is never found: it is
+    inserted after its equals), and the sentinel when no accepted command has that name.  The sorted
+    order of the table is irrelevant to the answer: it is a linear search in order of registration. -/
+theorem dispatch_first_registered (cmds : List Cmd) (hn : ∀ c ∈ cmds, c.name ≠ none) (s : St) (o : Nat)
+    (h0 : s.argv.getD 0 none = some o) :
+    findCommand (registerLog initTable cmds).1 s =
+      { s with cmd := some (findSpec (cstr s.mem o) cmdUnknown ([cmdEcho, cmdHelp] ++ cmds.take 29)) } := by
+  obtain ⟨named, ht, _, _, h4, h5⟩ := registerLog_inv cmdUnknown cmds initTable [cmdEcho, cmdHelp] initTable_ok init_sorted hn
+  have hfl := findLoop_mkTable (cstr s.mem o) cmdUnknown ht.sentinel (tableCap - named.length - 1) named ht.names
+  have hshape : (registerLog initTable cmds).1 = named.map some ++ some cmdUnknown :: List.replicate (tableCap - named.length - 1) none := ht.shape
+  unfold findCommand
+  simp only [h0, hshape, hfl]
+  rw [h4, h5]
+  rfl
+
+/-- duplicates: `x` registered twice (ids 0 and 1) — both are in the table, the first one is found -/
+example : let t := (registerLog initTable [⟨some [120], .script 0 0 false false⟩, ⟨some [97], .script 2 0 false false⟩,
+      ⟨some [120], .script 1 0 false false⟩]).1
+    (findCommand t { init with argv := [some 0, none, none, none], mem := [120, 0] }).cmd = some ⟨some [120], .script 0 0 false false⟩ ∧
+    t.take 6 = [some ⟨some [97], .script 2 0 false false⟩, some cmdEcho, some cmdHelp, some ⟨some [120], .script 0 0 false false⟩,
+      some ⟨some [120], .script 1 0 false false⟩, some cmdUnknown] := by decide
+
+/-! ## overflowing bursts -/
+
+open Librfn.Lemmas.ConsoleDeliver in
+/-- **putchar_delivers_exactly_accepted**: in every reachable state in which the console is not inside
+    a command, after *any* burst `cs` of `console_putchar` calls (however long) and the next scheduler
+    run, the console has consumed — in order, each once — what was in the ring followed by exactly
+    those characters of the burst for which `ringbuf_put` returned true; those are the first
+    `15 − fill` characters of the burst, every later one was dropped by the ring (`ringbuf_put`
+    returned false); the run terminates with the console waiting and the ring empty. -/
+theorem putchar_delivers_exactly_accepted (ops : List Op) (hok : ∀ op ∈ ops, OpOk op) (cs : List Byte) :
+    let w := runOps boot ops
+    w.s.fpt ≠ 2 → cs ≠ [] →
+    let s' := sched w.tab (cs.foldl putchar w.s)
+    s'.stuck = w.s.stuck ∧ s'.ring = [] ∧ s'.fpt = 1 ∧
+    s'.eaten = w.s.eaten ++ w.s.ring ++ acceptedOf cs (putLog w.s.ring cs).2 ∧
+    acceptedOf cs (putLog w.s.ring cs).2 = cs.take (15 - w.s.ring.length) := by
+  intro w hf hne
+  obtain ⟨named, ht, h⟩ := runOps_dinv ops boot hok _ _ initTable_ok (init_dinv _)
+  have hrl := ringLen_eq
+  obtain ⟨p1, p2, p3, p4, p5⟩ := putchars_log cs w.s
+  obtain ⟨_, a2, a3, a4, a5, _, _⟩ := sched_deliver _ w.tab named cmdUnknown (cs.foldl putchar w.s) ht rfl
+    (putchars_dinv _ cs w.s h) (by rw [p3]; exact hf) (p5 hne)
+  have hacc := accepted_take cs w.s.ring h.inv.ring
+  refine ⟨by rw [a5, p4], a2, a3, ?_, ?_⟩
+  · rw [a4, p2, p1, putLog_ring, List.append_assoc]
+  · rw [hacc, hrl]
+
+open Librfn.Lemmas.ConsoleDeliver in
+/-- **process_never_drops**: in every reachable state in which the console is not inside a command
+    and the ring has room for one character, *any* sequence of `console_process` calls (any length) is
+    consumed completely, in order, each character once (the ring is drained by every call, so no put
+    ever fails); all the loops terminate.  For `console_eval` the same is
+    `eval_executes_once_and_completes` (it yields instead of dropping when the ring is full). -/
+theorem process_never_drops (ops : List Op) (hok : ∀ op ∈ ops, OpOk op) (d : Byte) (cs : List Byte) :
+    let w := runOps boot ops
+    w.s.fpt ≠ 2 → w.s.ring.length + 1 < ringLen →
+    let s' := (d :: cs).foldl (process w.tab) w.s
+    s'.stuck = w.s.stuck ∧ s'.ring = [] ∧ s'.eaten = w.s.eaten ++ w.s.ring ++ d :: cs := by
+  intro w hf hroom
+  obtain ⟨named, ht, h⟩ := runOps_dinv ops boot hok _ _ initTable_ok (init_dinv _)
+  obtain ⟨a1, a2, a3, a4, a5, _⟩ := process_deliver _ w.tab named cmdUnknown w.s d ht rfl h hf
+  obtain ⟨_, b2, _, b4, b5⟩ := processes_deliver _ w.tab named cmdUnknown ht rfl cs (process w.tab w.s d) a1 (by rw [a3]; decide) a2
+  simp only [List.foldl_cons]
+  refine ⟨by rw [b5, a5], b2, ?_⟩
+  rw [b4, a4]
+  unfold ringPut
+  rw [if_neg (by omega)]
+  simp
 
 end Librfn.C15
